@@ -99,13 +99,14 @@ int main(int argc, char **argv) {
       r = sexp_eval_string(ctx, prog, -1, NULL);
       free(prog);
     }
-    else { printf("ERR unknown request\n"); continue; }
+    else { printf("ERR unknown request\n"); fflush(stdout); continue; }
     prres(r);
     /* containment: same context, later program, same answer; stack top restored */
     probe = sexp_eval_string(ctx, "(let lp ((i 0) (acc '())) (if (< i 50) (lp (+ i 1) (cons (* i i) acc)) (apply + acc)))", -1, NULL);
     if (sexp_fixnump(probe) && sexp_unbox_fixnum(probe) == 40425 && sexp_context_top(ctx) == top0) printf(" P");
     else printf(" P!");
     printf("\n");
+    fflush(stdout);   /* a sanitizer abort must not lose the answers already given */
   }
   sexp_gc_release5(ctx);
   sexp_destroy_context(ctx);
